@@ -222,7 +222,7 @@ class TaskCoordinator:
             # Wait up to a short delay before allowing the
             # task monitor to update.
             for task, res in runner.wait(timeout_seconds=0.5):
-                if isinstance(res, Exception):
+                if isinstance(res, BaseException):
                     tasks_with_removable_results = state.complete_task(task, result_meta=None)
                     self.handle_failure(ex=res, message=f"Task '{task}' failed.")
                 elif isinstance(res, ResultMeta):
